@@ -277,3 +277,7 @@ func AssumeAll(conds []bool) {
 		Assume(c)
 	}
 }
+
+// IOFaults enables up to n injected write failures on the modelled file system: a write returns an
+// error and nothing reaches the file (engine only; natively a no-op).
+func IOFaults(n int) {}
